@@ -1,6 +1,7 @@
 import SimpleDnsModel.Text
 import SimpleDnsModel.Model.Match
 import SimpleDnsModel.Model.Compress
+import SimpleDnsModel.Model.NameText
 import SimpleDnsModel.Spec.NameDecode
 import SimpleDnsModel.Spec.Rfc1035Header
 open Dns Dns.Text
@@ -82,6 +83,21 @@ def answer (ts : List String) : String :=
   | "build.comp" :: rest =>
     match pPacket rest with
     | some (p, []) => showOut hexOfBytes (Packet.buildCompressed p)
+    | _ => "bad-op"
+  | ["name.new", hex] =>
+    match bytesOfHex hex with
+    | some s => showOut (fun n => showName n ++ " " ++ hexOfBytes (Name.display n)) (Name.new s)
+    | none => "bad-op"
+  | ["label.new", hex] =>
+    match bytesOfHex hex with
+    | some s => showOut hexOfBytes (Label.new s)
+    | none => "bad-op"
+  | "name.rel" :: rest =>
+    match (pPair pName pName) rest with
+    | some ((a, b), []) =>
+      showBool (a.isSubdomainOf b) ++ " " ++
+        (match a.without b with | some n => showName n | none => "none") ++ " " ++
+        showBool a.isLinkLocal
     | _ => "bad-op"
   | ["type", c] =>
     match c.toNat? with
